@@ -459,6 +459,10 @@ PLANS["C13"] = dict(
 
 
 def run_c14(ctx):
+    ctx.mc("TileWalkMC", "TileWalkMC_%s.cfg" % ctx.tier, workers=8, timeout=3000,
+           note="grid walk of tilecover.line() in exact arithmetic: Must <= walk <= May for every segment between lattice points of a 3x3 tile window, incl. runs along tile edges and through corners")
+    ctx.mc_expect_violation("TileWalkMC", "TileWalkMC_bad.cfg", "BadWalkOK", workers=2,
+                            note="non-vacuity: stepping only while both crossing parameters are below 1 loses tiles")
     ctx.mc("MergeUp", "MergeUp_%s.cfg" % ctx.tier, timeout=3000, heap="24g",
            note="MergeUp loop with ANY map iteration order = MaxMerge; disjoint, same area, no complete quad left, never above min")
     shards = ctx.gen("tilecover")
